@@ -13,8 +13,9 @@ import (
 // FuncInfo is a declared function of the module with the per-function
 // indexes the rules need: parent links, definition sites of local variables.
 type pkgIndex struct {
-	parent map[ast.Node]ast.Node
-	defs   map[*types.Var][]defSite
+	parent  map[ast.Node]ast.Node
+	defs    map[*types.Var][]defSite
+	results map[*types.Var]bool // named results of declared functions
 }
 
 type FuncInfo struct {
@@ -52,6 +53,15 @@ func newFuncInfo(c *Ctx, p *packages.Package, fd *ast.FuncDecl, obj *types.Func)
 		fi.recordDefs(n)
 		return true
 	})
+	if fd.Type.Results != nil {
+		for _, f := range fd.Type.Results.List {
+			for _, nm := range f.Names {
+				if v, ok := fi.Info.Defs[nm].(*types.Var); ok {
+					c.idx[p].results[v] = true
+				}
+			}
+		}
+	}
 	return fi
 }
 
@@ -138,6 +148,10 @@ func (fi *FuncInfo) singleDef(v *types.Var) *defSite {
 		return nil
 	}
 	d := ds[0]
+	if d.kind == "assign" && d.rhs != nil && fi.C != nil && fi.C.idx[fi.Pkg] != nil && fi.C.idx[fi.Pkg].results[v] {
+		// a named result assigned exactly once: that assignment is its definition
+		return &d
+	}
 	if (d.kind != "define" && d.kind != "param") || d.rhs == nil {
 		return nil
 	}
@@ -168,7 +182,21 @@ func (fi *FuncInfo) defOf(e ast.Expr) *defSite {
 	if v == nil {
 		return nil
 	}
-	return fi.singleDef(v)
+	d := fi.singleDef(v)
+	// a plain copy of another single-assignment local (also: a linked helper's
+	// result operand) is defined where that local is
+	for i := 0; d != nil && d.idx < 0 && i < 6; i++ {
+		v2 := fi.varOf(d.rhs)
+		if v2 == nil {
+			break
+		}
+		d2 := fi.singleDef(v2)
+		if d2 == nil {
+			break
+		}
+		d = d2
+	}
+	return d
 }
 
 // ---------------------------------------------------------------------------
